@@ -120,3 +120,43 @@ Proof.
   intros a b H t c HI. unfold submap in H. rewrite forallb_forall in H. specialize (H _ HI). cbn in H.
   destruct (assoc t b); [|discriminate]. apply String.eqb_eq in H. subst; reflexivity.
 Qed.
+
+(* ---- access paths: whatever the path and the receiver, the wrapper has the class the registry gives to ITS node ---- *)
+Lemma wrap_at_consistent : forall reg doc pos w, wrap_at reg Element doc pos = Some w -> consistent reg doc w.
+Proof.
+  intros reg doc pos w H. unfold wrap_at in H. destruct (node_at doc pos) as [n|] eqn:E; [|discriminate].
+  inversion H; subst. exists n. split; [exact E|reflexivity].
+Qed.
+
+Lemma from_tag_fallback_irrelevant : forall reg c tag, c = from_tag reg Element tag -> from_tag reg c tag = from_tag reg Element tag.
+Proof. intros reg c tag H. unfold from_tag in *. destruct (assoc tag reg); [reflexivity|exact H]. Qed.
+
+Lemma access_step_consistent : forall reg doc w a w', consistent reg doc w -> access_step reg doc w a = Some w' -> consistent reg doc w'.
+Proof.
+  intros reg doc w a w' C H. destruct a as [i| | |pos|]; cbn [access_step] in H.
+  - eapply wrap_at_consistent; exact H.
+  - destruct (w_pos w); [discriminate|]. eapply wrap_at_consistent; exact H.
+  - eapply wrap_at_consistent; exact H.
+  - eapply wrap_at_consistent; exact H.
+  - destruct C as (n & E & Hc). unfold wrap_at in H. rewrite E in H. inversion H; subst. exists n. split; [exact E|].
+    cbn. apply from_tag_fallback_irrelevant. exact Hc.
+Qed.
+
+Theorem access_run_consistent : forall reg doc l w w', consistent reg doc w -> access_run reg doc w l = Some w' -> consistent reg doc w'.
+Proof.
+  intros reg doc. induction l as [|a l IH]; intros w w' C H; cbn in H.
+  - inversion H; subst; exact C.
+  - destruct (access_step reg doc w a) as [w1|] eqn:E; [|discriminate].
+    eapply IH; [eapply access_step_consistent; eauto|exact H].
+Qed.
+
+(* two histories that end on the same node give wrappers of the same class *)
+Corollary access_paths_agree : forall reg doc l1 l2 w1 w2 a b,
+  consistent reg doc w1 -> consistent reg doc w2 ->
+  access_run reg doc w1 l1 = Some a -> access_run reg doc w2 l2 = Some b -> w_pos a = w_pos b -> w_cls a = w_cls b.
+Proof.
+  intros reg doc l1 l2 w1 w2 a b C1 C2 H1 H2 E.
+  destruct (access_run_consistent reg doc l1 w1 a C1 H1) as (n & N & K).
+  destruct (access_run_consistent reg doc l2 w2 b C2 H2) as (m & M & K').
+  rewrite E in N. rewrite N in M. inversion M; subst. congruence.
+Qed.
